@@ -223,6 +223,162 @@ func (d *driver) driveRoots(ntraces, nops int) {
 	}
 }
 
+// amountsNear are deposit amounts / targets at, just below and just above each cost.
+func amountsNear(up UnitPrices) []int64 {
+	costs := []int64{up.Egr4k, 2 * up.Egr4k, up.Verify, up.Wstor + up.Ingr4k}
+	out := []int64{1, 2, 3, 5}
+	for _, c := range costs {
+		out = append(out, c-1, c, c+1)
+	}
+	var pos []int64
+	for _, x := range out {
+		if x > 0 {
+			pos = append(pos, x)
+		}
+	}
+	return pos
+}
+
+// driveAccounts: random fund / replenish / attach / detach / read / write / verify / balance
+// sessions over 3 accounts and 2 pools, balances steered to sit at, just below and just above the
+// costs, corrupted fields, aborts at random rounds (C15).
+func (d *driver) driveAccounts(ntraces, nops int) {
+	rng := d.rng
+	amts := amountsNear(d.e.UP)
+	for n := 0; n < ntraces; n++ {
+		allowance := uint64(3000000)
+		if n%4 == 3 {
+			allowance = uint64(d.e.UP.Wstor) + 2000 // the contract itself runs dry
+		}
+		tr := d.newTrace(allowance, 2*allowance, []int{1, 2, 3})
+		dupTrace := n%5 == 4 // duplicates in replenish lists only here (open finding C15-replenish-duplicates)
+		stored := []int{1, 2, 3}
+		nextSec := 100 + 1000*d.shard + 50*n
+		acc := func() string { return pick(rng, TraceAccounts...) }
+		pl := func() string { return pick(rng, TracePools...) }
+		amt := func() int64 { return amts[rng.Intn(len(amts))] }
+		bal := func(a string) int64 {
+			b, _ := d.e.EC.AccountBalance(tr.ad.Acc(a))
+			x, _ := Scale(b)
+			return x
+		}
+		for op := 0; op < nops && !tr.bad; op++ {
+			tp := func() (string, string) {
+				switch rng.Intn(20) {
+				case 0:
+					return pick(rng, tfClasses...), "ok"
+				case 1:
+					return "ok", pick(rng, pfClasses...)
+				}
+				return "ok", "ok"
+			}
+			switch x := rng.Intn(100); {
+			case x < 16: // fund: sometimes exactly what is missing for the next service
+				var deps []Dep
+				for i, k := 0, 1+rng.Intn(3); i < k; i++ {
+					a := acc()
+					v := amt()
+					if rng.Intn(3) == 0 {
+						if miss := amt() - bal(a); miss > 0 {
+							v = miss
+						}
+					}
+					deps = append(deps, Dep{A: a, N: v})
+				}
+				switch rng.Intn(30) {
+				case 0:
+					deps = nil
+				case 1:
+					deps[0].N = 0
+				}
+				d.exchange(Act{Op: "BeginFund", S: 1, Deps: deps, Sf: flaw(rng, 8, sfClasses...)}, "", "", pick(rng, "finish", "finish", "finish", "abort1"))
+			case x < 26: // replenish accounts / pools
+				kind := pick(rng, "accts", "pools")
+				names := TraceAccounts
+				if kind == "pools" {
+					names = TracePools
+				}
+				var accs []string
+				for _, i := range rng.Perm(len(names))[:1+rng.Intn(len(names))] {
+					accs = append(accs, names[i])
+				}
+				if dupTrace && rng.Intn(3) == 0 {
+					accs = append(accs, accs[0])
+				}
+				if rng.Intn(30) == 0 {
+					accs = nil
+				}
+				target := amt()
+				if rng.Intn(25) == 0 {
+					target = 0
+				}
+				d.exchange(Act{Op: "BeginRepl", S: 1, Kind: kind, Accs: accs, Target: target, Cf: flaw(rng, 8, cfClasses...)}, "Round2Repl", flaw(rng, 8, sfClasses...), d.stopPoint())
+			case x < 36: // attach
+				var b []Entry
+				for i, k := 0, 1+rng.Intn(2); i < k; i++ {
+					e := Entry{A: acc(), P: pl(), Vf: "ok"}
+					e.By = e.P
+					switch rng.Intn(12) {
+					case 0:
+						e.By = e.A
+					case 1:
+						e.By = "x"
+					case 2:
+						e.Vf = "expired"
+					case 3:
+						e.Vf = "wronghost"
+					}
+					b = append(b, e)
+				}
+				if rng.Intn(30) == 0 {
+					b = nil
+				}
+				d.exchange(Act{Op: "BeginAttach", S: 1, B: b}, "", "", "finish")
+			case x < 42: // detach
+				e := Entry{A: acc(), P: pl(), Vf: "ok"}
+				e.By = pick(rng, e.A, e.P, e.A, e.P, "x", pl())
+				if rng.Intn(10) == 0 {
+					e.Vf = pick(rng, "expired", "wronghost")
+				}
+				d.exchange(Act{Op: "BeginDetach", S: 1, B: []Entry{e}}, "", "", "finish")
+			case x < 62: // read
+				tf, pf := tp()
+				sec := stored[rng.Intn(len(stored))]
+				if rng.Intn(12) == 0 {
+					sec = unknownBase
+				}
+				d.exchange(Act{Op: "BeginRead", S: 1, A: acc(), Sec: sec, Units: pick(rng, 1, 1, 2, 2, 0), Tf: tf, Pf: pf}, "", "", pick(rng, "finish", "finish", "finish", "abort1"))
+			case x < 74: // verify
+				tf, pf := tp()
+				sec := stored[rng.Intn(len(stored))]
+				if rng.Intn(12) == 0 {
+					sec = unknownBase
+				}
+				d.exchange(Act{Op: "BeginVerify", S: 1, A: acc(), Sec: sec, Tf: tf, Pf: pf}, "", "", "finish")
+			case x < 88: // write
+				tf, pf := tp()
+				nextSec++
+				fin := d.exchange(Act{Op: "BeginWrite", S: 1, A: acc(), Sec: nextSec, Units: pick(rng, 1, 1, 2, 0), Tf: tf, Pf: pf}, "", "", pick(rng, "finish", "finish", "finish", "abort1"))
+				if fin.Op == "Finish" && fin.Reply.K == "ok" {
+					stored = append(stored, nextSec)
+				} else if ok, _ := d.e.SS.HasSector(Sector(nextSec).root); ok {
+					stored = append(stored, nextSec) // paid and stored although the renter hung up
+				}
+			case x < 96:
+				d.exchange(Act{Op: "BeginBalance", S: 1, A: acc()}, "", "", "finish")
+			default:
+				tr.do(Act{Op: "Truncated", S: 1})
+			}
+		}
+		if tr.bad {
+			d.res.Count("traces_cut_short", 1)
+		}
+		if n == 0 && d.shard == 0 {
+			d.res.Sample(map[string]any{"trace": tr.tag, "events": tr.n, "first_actions": tr.hist[:min(len(tr.hist), 12)]})
+		}
+	}
+}
+
 // driveClientFree: the property's list model through the CLIENT API, exhaustively: for every
 // contract size 0..maxN and every index list over it of length <= maxLen (any order, with
 // duplicates) the real rhp4.RPCFreeSectors leaves exactly the list model's roots.  (Go-side
@@ -316,6 +472,8 @@ func TestDriver(t *testing.T) {
 		switch family {
 		case "roots":
 			d.driveRoots(ntraces, nops)
+		case "accounts":
+			d.driveAccounts(ntraces, nops)
 		case "clientfree":
 			d.driveClientFree(hx.EnvInt("VERIF_MAXN", 4), hx.EnvInt("VERIF_MAXLEN", 4))
 		default:
